@@ -3,6 +3,7 @@ package props
 // Registry maps a property id to its check.
 var Registry = map[string]func(tier, replay string) int{
 	"C02": RunC02,
+	"C03": RunC03,
 	"C05": RunC05,
 	"C12": RunC12,
 	"C13": RunC13,
